@@ -25,6 +25,8 @@ M = [
     ('passes', 'BackwardScheduler.calc', 'pjplan/schedule.py', "            self.__backward_pass(backward_roots[i], self.__end, backward_resource_usage, calculated)", "            self.__backward_pass(backward_roots[0], self.__end, backward_resource_usage, calculated)", 'roots-scheduled'),
     ('passes', 'ForwardScheduler.calc', 'pjplan/schedule.py', "            self.__forward_pass(t, self.__start, forward_resource_usage, calculated)", "            self.__forward_pass(t, datetime.now(), forward_resource_usage, calculated)", 'bound'),
     ('task', 'parent.setter', 'pjplan/task.py', "            if parent is self or parent in self.all_children:", "            if parent in self.all_children:", 'F4'),
+    ('task', 'parent.setter[ids]', 'pjplan/task.py', "                if _has_id_intersection(parent, [self]):\n                    raise RuntimeError(\"Task subtree ids intersects with parent tree ids\")", "                pass", 'U1'),
+    ('task', 'parent.setter[ids]', 'pjplan/task.py', "            if parent is not None and (self.parent is None or id(self.parent) != id(parent)):", "            if parent is not None and self.parent is None:", 'U1'),
     ('task', 'parent.setter', 'pjplan/task.py', "            self._attach(parent.__wbs)", "            pass", 'C11'),
     ('task', 'parent.setter', 'pjplan/task.py', "            _check_no_links_to_ancestors(self, parent)\n\n        if self.__parent is not None", "\n        if self.__parent is not None", 'X1'),
     ('task', 'parent.setter', 'pjplan/task.py', "        if self.__parent is not None and self in self.__parent.__children:\n            self.__parent.__children.remove(self)", "        if self.__parent is not None and self.__parent is not parent and self in self.__parent.__children:\n            self.__parent.__children.remove(self)", 'C16'),
